@@ -39,7 +39,11 @@ fn main() {
             let mut lines = std::io::BufReader::new(f).lines();
             let vocab: serde_json::Value = serde_json::from_str(&lines.next().expect("vocab line").unwrap()).expect("vocab json");
             let voc = concretise::Vocab { v: vocab["vocab"].clone() };
+            let fresh = std::fs::metadata(&out).map_or(true, |m| m.len() == 0);
             let mut outf = std::fs::OpenOptions::new().create(true).append(true).open(&out).expect("out file");
+            if fresh {
+                outf.write_all(format!("{}\n", serde_json::json!({"ev":"vocab","vocab":voc.v})).as_bytes()).unwrap();
+            }
             for (idx, line) in lines.enumerate() {
                 if idx < from {
                     continue;
